@@ -4,6 +4,7 @@ import (
 	"bufio"
 	"io"
 	"net"
+	"os"
 	"time"
 
 	"github.com/valyala/fasthttp"
@@ -14,11 +15,14 @@ import (
 // vConn is the socket: reads come from the harness, writes are collected and
 // can be made to fail from a given byte on, Close unblocks a pending Read.
 type vConn struct {
-	in     chan []byte
-	rest   []byte
-	w      vWriter
-	done   chan struct{}
-	closed bool
+	in      chan []byte
+	rest    []byte
+	w       vWriter
+	done    chan struct{}
+	closed  bool
+	onWrite func(p []byte) // called before every write (a probe for harnesses)
+	wedged  chan struct{}  // non-nil: writes wait here (a peer that has stopped reading)
+	expired chan struct{}  // closed by the first write deadline set while wedged
 }
 
 type vAddr struct{}
@@ -43,7 +47,24 @@ func (c *vConn) Read(p []byte) (int, error) {
 	return n, nil
 }
 
-func (c *vConn) Write(p []byte) (int, error) { return c.w.Write(p) }
+func (c *vConn) Write(p []byte) (int, error) {
+	if c.onWrite != nil {
+		c.onWrite(p)
+	}
+	if c.wedged != nil {
+		if c.expired == nil {
+			c.expired = make(chan struct{})
+		}
+		select {
+		case <-c.wedged:
+		case <-c.expired:
+			return 0, os.ErrDeadlineExceeded
+		case <-c.done:
+			return 0, io.ErrClosedPipe
+		}
+	}
+	return c.w.Write(p)
+}
 
 func (c *vConn) Close() error {
 	if !c.closed {
@@ -57,7 +78,22 @@ func (c *vConn) LocalAddr() net.Addr                { return vAddr{} }
 func (c *vConn) RemoteAddr() net.Addr               { return vAddr{} }
 func (c *vConn) SetDeadline(t time.Time) error      { return nil }
 func (c *vConn) SetReadDeadline(t time.Time) error  { return nil }
-func (c *vConn) SetWriteDeadline(t time.Time) error { return nil }
+
+// SetWriteDeadline on a wedged socket: whatever the instant, it passes, and
+// the writes waiting then fail. (No harness sets one and clears it again.)
+func (c *vConn) SetWriteDeadline(t time.Time) error {
+	if c.wedged != nil {
+		if c.expired == nil {
+			c.expired = make(chan struct{})
+		}
+		select {
+		case <-c.expired:
+		default:
+			close(c.expired)
+		}
+	}
+	return nil
+}
 
 // A well-formed client byte stream (SETTINGS, a GET on stream 1, a POST with a
 // body on stream 3, a PING: 76 bytes) is cut off after any number of bytes
